@@ -85,6 +85,15 @@ func (c *CaptureLogger) Errorf(l mlog.Log) { c.rec("error", l) }
 
 // ExecSend runs a SendScenario in a fresh simulated world.
 func ExecSend(t *testing.T, sc *SendScenario, logger mlog.Logger) *SendRun {
+	return execSendHook(t, sc, logger, nil)
+}
+
+// execSendWith is ExecSend with a hook that adjusts the environment before the run starts.
+func execSendWith(t *testing.T, sc *SendScenario, hook func(e *NetEnv)) *SendRun {
+	return execSendHook(t, sc, nil, hook)
+}
+
+func execSendHook(t *testing.T, sc *SendScenario, logger mlog.Logger, hook func(e *NetEnv)) *SendRun {
 	run := &SendRun{Sc: sc}
 	pol := sc.Policy
 	if pol.Kind == "" {
@@ -93,6 +102,9 @@ func ExecSend(t *testing.T, sc *SendScenario, logger mlog.Logger) *SendRun {
 	run.Res = RunSim(t, sc.Sched, pol, 0, 2*time.Hour, func(k *sim.Kernel) (func(), func()) {
 		env := &NetEnv{K: k, Srv: refsmtpd.New(k, sc.Server, TLSMat), Faults: []sim.ConnFaults{sc.Conn}, Host: sc.Client.host()}
 		run.Env = env
+		if hook != nil {
+			hook(env)
+		}
 		return func() {
 			c, err := BuildClient(sc.Client, env.Dial, logger)
 			if err != nil {
